@@ -698,6 +698,72 @@ func (c *Ctx) queueIndexRules() {
 	}
 	c.R.Count("index-map updates", nUpd)
 	c.R.Floor("index-map updates (insert, grow, removeHead)", nUpd, 3)
+	c.ackedResultFresh()
+}
+
+// ackedResultFresh: what Acked() returns is built in that call. The list of released entries lives in a
+// reused field; every path to a return must pass the store that empties it (x = x[0:0], nil, or a new
+// slice), otherwise a call that releases nothing hands back the entries of the previous call and they are
+// completed / handed on a second time.
+func (c *Ctx) ackedResultFresh() {
+	fn := c.P.Func("sessions", "Ackqueue", "Acked")
+	if fn == nil {
+		c.R.Unresolved("sessions.Ackqueue.Acked")
+		return
+	}
+	g := paths.New(c.P, fn, 1)
+	pos := c.P.Pos(fn.Pos())
+	// the field(s) the returned value is loaded from
+	fields := map[string]bool{}
+	local := false
+	for _, ret := range ir.Returns(fn) {
+		v := ir.ReturnOperand(ret, 0)
+		pth := ir.PathOf(v)
+		if len(pth.Fields) > 0 && pth.Root == ssa.Value(fn.Params[0]) {
+			fields[pth.Fields[len(pth.Fields)-1]] = true
+		} else {
+			local = true
+		}
+	}
+	if len(fields) == 0 {
+		if local {
+			c.R.Ok(ruleT5, "Acked:result-built-in-this-call", pos, "the result is a value built in this call, not a reused field")
+		}
+		return
+	}
+	isReset := func(n paths.Node) bool {
+		st, ok := n.Instr.(*ssa.Store)
+		if !ok {
+			return false
+		}
+		p := framePath(n.F, st.Addr)
+		if len(p.Fields) == 0 || !fields[p.Fields[len(p.Fields)-1]] || p.Root != ssa.Value(fn.Params[0]) {
+			return false
+		}
+		switch x := st.Val.(type) {
+		case *ssa.Slice:
+			// x[0:0] / x[:0]
+			isZero := func(v ssa.Value) bool {
+				if v == nil {
+					return true
+				}
+				k, ok := v.(*ssa.Const)
+				return ok && k.Value != nil && k.Value.ExactString() == "0"
+			}
+			return isZero(x.Low) && x.High != nil && isZero(x.High)
+		case *ssa.Const:
+			return x.IsNil()
+		case *ssa.MakeSlice:
+			k, ok := x.Len.(*ssa.Const)
+			return ok && k.Value != nil && k.Value.ExactString() == "0"
+		}
+		return false
+	}
+	if p := g.FindPath([]paths.Node{g.Entry()}, isReset, isExit); p != nil {
+		c.R.Bad(ruleT5, "Acked:result-built-in-this-call", pos, "a path through Acked returns the reused result list without emptying it first: a call that releases nothing hands back the entries released by the previous call - their completion fires again / a QoS 2 publish is handed on a second time (e.g. on a repeated PUBREL)", c.witness(g, p)...)
+	} else {
+		c.R.Ok(ruleT5, "Acked:result-built-in-this-call", pos, "every path to a return empties the reused result list before filling it")
+	}
 }
 
 func (c *Ctx) checkIndexUpdate(fn *ssa.Function, mu *ssa.MapUpdate) {
